@@ -611,6 +611,24 @@ pub fn run_spellings(seed: u64, shard: u64, cases: usize, per: usize) -> Report 
                 segs.push((0..n).map(|_| rng.next() as u8).collect());
             }
         }
+        // long paths: very many segments below the wildcard route (sometimes with a dot
+        // segment far from the start), and - for any path - very long runs of slashes
+        let deep = rng.chance(1, 10);
+        if deep {
+            segs = vec![b"w".to_vec()];
+            for _ in 0..(40 + rng.usize(300)) {
+                segs.push(rng.pick(&values[..12]).clone());
+            }
+            if rng.chance(1, 3) {
+                let at = 1 + rng.usize(segs.len());
+                segs.insert(at, if rng.bool() { b"..".to_vec() } else { b".".to_vec() });
+            }
+            if rng.chance(1, 4) {
+                let at = 1 + rng.usize(segs.len());
+                segs.insert(at, vec![0xff, b'a']);
+            }
+        }
+        let slash_runs = deep || rng.chance(1, 10);
         let canon = canonical_spelling(&segs);
         let expect = dispatch(&table, "GET", &canon, None);
         let canon_real =
@@ -633,7 +651,14 @@ pub fn run_spellings(seed: u64, shard: u64, cases: usize, per: usize) -> Report 
             s.into_iter().collect::<Vec<_>>().join("+")
         };
         for k in 0..per {
-            let raw = spell(&mut rng, &segs, true);
+            let mut raw = spell(&mut rng, &segs, true);
+            if slash_runs && k % 2 == 1 {
+                // a run of 100-400 extra slashes at one of the boundaries (or at the end)
+                let at: Vec<usize> = raw.iter().enumerate().filter(|(_, b)| **b == b'/').map(|(i, _)| i).collect();
+                let pos = if rng.chance(1, 4) { raw.len() } else { *rng.pick(&at) };
+                let run = vec![b'/'; 100 + rng.usize(300)];
+                raw.splice(pos..pos, run);
+            }
             let raw_str = String::from_utf8(raw.clone()).unwrap();
             let real = router.lookup(&get, &raw_str, None);
             let kind = match &expect {
@@ -643,7 +668,7 @@ pub fn run_spellings(seed: u64, shard: u64, cases: usize, per: usize) -> Report 
                 Expect::NotAllowed(_) => "405",
                 Expect::Ambiguous(_) => "amb",
             };
-            rep.eval(format!("{byteclass}|n{}|{kind}", segs.len()));
+            rep.eval(format!("{byteclass}|n{}|{kind}{}", segs.len().min(40), if slash_runs && k % 2 == 1 { "|slash-run" } else { "" }));
             let wit = json!({"seed": seed, "shard": shard, "case": c, "k": k,
                 "segments": segs.iter().map(|s| String::from_utf8_lossy(s).to_string()).collect::<Vec<_>>(),
                 "segments_hex": segs.iter().map(|s| s.iter().map(|b| format!("{b:02x}")).collect::<String>()).collect::<Vec<_>>(),
